@@ -23,7 +23,7 @@ pub fn def() -> PropertyDef {
         extra,
         replay_custom,
         assumptions: &[
-            "reference model: the one-shot waveform W of a fresh generator and a frame cursor k; Step must return fperiod and write W[k*fp..(k+1)*fp] (bitwise) while k < F, else return 0 and leave a sentinel-filled buffer untouched; synthesized_frames() == k; Finish returns exactly W[k*fp..]",
+            "reference model: the one-shot waveform W of a fresh generator and a frame cursor k; Step must return fperiod, write W[k*fp..(k+1)*fp] (bitwise) and leave the rest of a larger buffer untouched while k < F, else return 0 and leave a sentinel-filled buffer untouched; synthesized_frames() == k; Finish returns exactly W[k*fp..]",
             "the exhaustively enumerated sub-space uses generators built directly with the public SpeechGenerator::new from synthetic trajectories of 0..4 frames",
         ],
     }
@@ -84,6 +84,11 @@ pub fn run_history(make: &dyn Fn() -> Result<SpeechGenerator, Failure>, ops: &[O
                         ensure!(r == fp, "step-return", "op #{} {:?}: generate_step returned {} at frame {} of {} (expected fperiod {})", i, op, r, k, f, fp);
                         if let Some(j) = (0..fp).find(|&j| !same(buf[j], w[k * fp + j])) {
                             fail!("step-chunk", "op #{} {:?}: frame {} sample {}: incremental {:e} != one-shot {:e}", i, op, k, j, buf[j], w[k * fp + j]);
+                        }
+                        // the call reports fp samples: what lies beyond them in the caller's buffer
+                        // (e.g. the other half of a double buffer) is not its to touch
+                        if let Some(j) = (fp..buf.len()).find(|&j| !same(buf[j], SENTINEL)) {
+                            fail!("step-writes-beyond-frame", "op #{} {:?}: generate_step returned {} but modified the caller's buffer at index {} (buffer of {})", i, op, r, j, buf.len());
                         }
                         k += 1;
                         stepped_before_finish = true;
